@@ -99,7 +99,7 @@ def audit_sources():
 def audit_theorems(prop, theorems, modules):
     """#print axioms + statement of each theorem; returns {thm: {axioms, statement}} or raises."""
     if not theorems:
-        return {}
+        return {}, (0, "")
     lines = [f"import {m}" for m in modules]
     for t in theorems:
         lines.append(f'#check @{t}')
